@@ -179,4 +179,51 @@ theorem shape_upper {s : List Char} {c r : Nat} (h : Shape s c r) : Shape (s.map
   · simp only [List.map_append, hdol d1 h1, hdol d2 h2, map_toUpper_digits D hDd]
   · unfold colRaw; rw [colRawAux_toUpper]; exact hc
 
+/-! ### the converse: nothing becomes a reference by (ASCII) upper-casing -/
+
+theorem isLetter_toUpper (c : Char) : isLetter (toUpper c) = isLetter c := by
+  cases h : isLetter c with
+  | true => simp [isLetter, (toUpper_letter_val h).1]
+  | false => rw [toUpper_nonletter h, h]
+
+theorem toUpper_eq_of_nonletter_image {c : Char} (h : isLetter (toUpper c) = false) : toUpper c = c := by
+  rw [isLetter_toUpper] at h
+  exact toUpper_nonletter h
+
+theorem map_toUpper_eq_of_nonletters {xs ys : List Char} (h : xs.map toUpper = ys)
+    (hy : ∀ c ∈ ys, isLetter c = false) : xs = ys := by
+  subst h
+  induction xs with
+  | nil => rfl
+  | cons x xs ih =>
+    have hx : isLetter (toUpper x) = false := hy _ (by simp)
+    have : toUpper x = x := toUpper_eq_of_nonletter_image hx
+    simp only [List.map_cons, this]
+    congr 1
+    exact ih (fun c hc => hy c (by simp [hc]))
+
+theorem IsDol.nonletters {d : List Char} (h : IsDol d) : ∀ c ∈ d, isLetter c = false := by
+  rcases h with rfl | rfl
+  · simp
+  · intro c hc; simp at hc; subst hc; decide
+
+/-- if the upper-cased string has the shape, the string itself has it (same cell) -/
+theorem shape_of_upper {s : List Char} {c r : Nat} (h : Shape (s.map toUpper) c r) : Shape s c r := by
+  obtain ⟨d1, L, d2, D, e, h1, h2, hL, hLl, hD, hDd, hc, hc1, hc2, hr, hr1, hr2⟩ := h
+  obtain ⟨s123, s4, rfl, e123, e4⟩ := List.map_eq_append_iff.mp e
+  obtain ⟨s12, s3, rfl, e12, e3⟩ := List.map_eq_append_iff.mp e123
+  obtain ⟨s1, s2, rfl, e1, e2⟩ := List.map_eq_append_iff.mp e12
+  have hs1 : s1 = d1 := map_toUpper_eq_of_nonletters e1 h1.nonletters
+  have hs3 : s3 = d2 := map_toUpper_eq_of_nonletters e3 h2.nonletters
+  have hs4 : s4 = D := map_toUpper_eq_of_nonletters e4 (fun c hc => isDigit_not_letter (hDd c hc))
+  subst hs1 hs3 hs4
+  subst e2
+  have hl2 : ∀ x ∈ s2, isLetter x = true := by
+    intro x hx
+    have := hLl (toUpper x) (List.mem_map.mpr ⟨x, hx, rfl⟩)
+    rwa [isLetter_toUpper] at this
+  refine ⟨s1, s2, s3, s4, rfl, h1, h2, by simpa using hL, hl2, hD, hDd, ?_, hc1, hc2, hr, hr1, hr2⟩
+  have : colRaw (s2.map toUpper) = colRaw s2 := by unfold colRaw; exact colRawAux_toUpper 0 s2
+  rw [← this]; exact hc
+
 end XlModel.Ref
